@@ -290,7 +290,10 @@ class ChefUserT(ToolCase):
         self.draw_forms(src)
         if self.opts["cli"]:
             self.serial = False
-        self.opts.update(recipe=self.kind, i=self.i, j=self.j, kept=self.kept, serial=self.serial)
+        # the recipe as a function object defined at run time instead of a .py file (API only)
+        self.as_callable = (not self.opts["cli"]) and bool(src.flag("recipe.callable", 4))
+        self.opts.update(recipe=self.kind, i=self.i, j=self.j, kept=self.kept, serial=self.serial,
+                         callable=self.as_callable)
 
     def materialise(self, root):
         p = os.path.join(root, "data", "plt00100")
@@ -319,9 +322,17 @@ class ChefUserT(ToolCase):
             return run_tool(ctx, cli.main, cwd=cwd, argv=argv, label=f"chef {argv[1:]}")
         from amr_kitchen.chef.chef import Chef
 
+        recipe_arg = rec
+        if getattr(self, "as_callable", False):
+            ns = {}
+            with core._REAL_OPEN(rec) as fh:
+                exec(compile(fh.read(), "<recipe defined at run time>", "exec"), ns)
+            recipe_arg = ns["recipe"]
+
         def go():
-            Chef(inp, recipe=rec, outfile=out_arg, serial=self.serial, kept_fields=kept).cook()
-        return run_tool(ctx, go, cwd=cwd, label=f"Chef({inp},{self.kind},kept={self.kept},serial={self.serial},out={out_arg})")
+            Chef(inp, recipe=recipe_arg, outfile=out_arg, serial=self.serial, kept_fields=kept).cook()
+        return run_tool(ctx, go, cwd=cwd, label=f"Chef({inp},{self.kind}{' as callable' if recipe_arg is not rec else ''},"
+                                                 f"kept={self.kept},serial={self.serial},out={out_arg})")
 
     def expected(self):
         """Fields: every component stored under its own name; the statement fixes no order
